@@ -59,7 +59,7 @@ def gen_exhaustive(length, rng):
 
 
 def gen_random(tier, rng, shape):
-    nshort, nmid, nlong = (40, 8, 3) if tier == 'quick' else (300, 40, 6)
+    nshort, nmid, nlong = (250, 40, 6) if tier == 'quick' else (1500, 150, 8)
     longmax = 500 if tier == 'quick' else 20000
 
     def history(n, nn, nt):
@@ -113,7 +113,7 @@ def gen_random(tier, rng, shape):
 
 
 def gen_homogeneous(tier, rng):
-    per = 40 if tier == 'quick' else 400
+    per = 150 if tier == 'quick' else 1000
     for hk in ('param', 'enum', 'base', 'eh'):
         for c in range(per):
             n = rng.randint(0, 10) if c else 0
@@ -339,9 +339,11 @@ def case_of(ops, i):
     return (lex if not ops[s].startswith('lexicon') else []) + ops[s:i + 1]
 
 
-def first_problem(probe, ops, with_addr, shapes=None):
+def first_problem(probe, ops, with_addr, shapes=None, stats_out=None):
     """('crash'|'statement'|'correspondence', op index, message) for the first disagreement in `ops`, or None."""
-    rc_i, impl, err_i, model_lines, _ = run_both(probe, ops, with_addr)
+    rc_i, impl, err_i, model_lines, stats = run_both(probe, ops, with_addr)
+    if stats_out is not None:
+        stats_out += stats
     bad = oracle(ops, impl)
     if bad and (len(impl) == len(ops) or bad[0] < len(impl) - 1):
         return ('statement',) + bad
@@ -402,8 +404,8 @@ def run(tier):
 
     cases = generate(tier, rng, whitebox)
     ops, starts = assemble(cases, rng)
-    shapes = [0, 0]
-    problem = first_problem(probe, ops, whitebox, shapes)
+    shapes, stats = [0, 0], []
+    problem = first_problem(probe, ops, whitebox, shapes, stats)
     if problem:
         what, i, msg = problem
         seq = case_of(ops, i)
@@ -422,7 +424,6 @@ def run(tier):
         res.proof_broken('IprProps.C07', detail)
 
     # evidence: what was visited
-    _, _, _, _, stats = (0, 0, 0, 0, [])
     labels, kinds, branch, maxlen = {}, {}, {}, 0
     for _, label in starts:
         labels[label] = labels.get(label, 0) + 1
@@ -435,13 +436,9 @@ def run(tier):
             maxlen = max(maxlen, cur)
         elif w[0] == 'new':
             cur = 0
-    try:
-        rc_m, out_m, _ = C.run_model('c07', '\n'.join(o for o in ops if o.split()[0] in ('lexicon', 'new', 'decl')) + '\n')
-        for s in C.split_streams(out_m)[2]:
-            b = s.split('case=')[-1]
-            branch[b] = branch.get(b, 0) + 1
-    except Exception:
-        pass
+    for s in stats:
+        b = s.split('case=')[-1]
+        branch[b] = branch.get(b, 0) + 1
     for label, c in cases:
         if label.startswith('random-short') or label.startswith('homogeneous-param'):
             res.sample({'kind': label, 'ops': c[:14], 'n_ops': len(c)}, cap=4)
@@ -453,7 +450,8 @@ def run(tier):
     res.cov['case_kinds'] = dict(sorted(labels.items()))
     res.cov['longest_history'] = maxlen
     res.cov['full_observations'] = sum(1 for o in ops if o in ('full', 'hfull', 'sets', 'elems'))
-    res.cov['exhaustive'] = 'all histories of length <= %d over 2 names x 2 types (kinds and nodes drawn at random per history)' % (7 if thorough else 5)
+    res.cov['exhaustive'] = False
+    res.cov['exhaustive_part'] = 'all histories of length <= %d over 2 names x 2 types (kinds and nodes drawn at random per history)' % (7 if thorough else 5)
     if thorough:
         res.cov['tree_shapes_compared(white-box, evidence only)'] = shapes[0]
         res.cov['tree_shapes_equal'] = shapes[1]
